@@ -34,7 +34,13 @@ WellFormed   == l = 0 \/ /\ R.err = ""
                           /\ IF IsFile(R) THEN R.c \in Files /\ R.acq = Len(R.c.entries) /\ R.k \in DOMAIN R.c.entries
                                           ELSE C \in Cases /\ R.acq = 1
 \* exactly one request reached a server
-TArrived     == l = 0 \/ Arrived(C, O)
+TArrived     == l = 0 \/ IF TunnelRefused(C) THEN TunnelRefusedOK(C, O, R.samples) ELSE Arrived(C, O)
+\* connect gun: every CONNECT names the gun's target, over TLS iff connect-ssl; other guns never send one
+TConnect     == l = 0 \/ ConnectOK(C, O)
+\* header/date middleware: exactly one stamped value, and its instant lies between the driver's clock readings
+TDates       == l = 0 \/ O.n = 0 \/ DatesOK(C, O, R.t0, R.t1)
+\* answlog / httptrace only observe
+TSide        == l = 0 \/ SideOK(C, R.samples, R.answ)
 \* ... the gun's target, with the scheme chosen by ssl
 TSchemeTarget == l = 0 \/ O.n = 0 \/ SchemeTarget(C, O)
 TMethod      == l = 0 \/ O.n = 0 \/ MethodKept(C, O)
